@@ -33,11 +33,11 @@ func run(c *lib.Ctx) error {
 
 	// ---- M + G
 	type bound struct{ steps, newAl, ninit int }
-	bounds := []bound{{1, 1, 4}}
+	bounds := []bound{{1, 1, 5}}
 	if c.Thorough() {
-		bounds = []bound{{2, 1, 2}, {1, 1, 4}}
+		bounds = []bound{{2, 1, 2}, {1, 1, 5}}
 	}
-	c.Set("bounds", map[string]any{"exhaustive": bounds, "random_histories": c.Pick(24, 300), "history_length": 40, "big_lists": []int{33, 1057}})
+	c.Set("bounds", map[string]any{"exhaustive": bounds, "random_histories": c.Pick(24, 300), "map_growth_histories": c.Pick(12, 120), "history_length": 40, "big_lists": []int{33, 1057}})
 	seen := map[string]bool{}
 	for _, b := range bounds {
 		r, err := c.TLC(fmt.Sprintf("MCAlias(steps=%d,init=%d)", b.steps, b.ninit), lib.TLCRun{Dir: dir, Module: "MCAlias", Workers: 4, Timeout: 12 * time.Minute, HeapGB: 8,
@@ -73,6 +73,9 @@ func run(c *lib.Ctx) error {
 		var mu sync.Mutex
 		n := 0
 		lib.Parallel(len(behs), 4, func(i int) {
+			if os.Getenv("VERIF_ONLY") == "v" { // development switch: show what V catches on its own
+				return
+			}
 			replayBehaviour(c, behs[i])
 			mu.Lock()
 			n++
@@ -103,6 +106,12 @@ func run(c *lib.Ctx) error {
 		}
 		hist[h] = randomHistory(c, newRand(c.Seed*100003+int64(h)), kind, length)
 	})
+	// maps grown key by key, every earlier version aliased and re-read (12 variants x seeds)
+	ng := c.Pick(12, 120)
+	grow := make([][]Event, ng)
+	lib.Parallel(ng, 4, func(g int) { grow[g] = growHistory(c, newRand(c.Seed*7919+int64(g)), g) })
+	hist = append(hist, grow...)
+	nh += ng
 	c.Sample(hist[2][:min(4, len(hist[2]))])
 	if os.Getenv("VERIF_CORRUPT") == "v" {
 		e := &hist[2][len(hist[2])-1]
